@@ -62,3 +62,39 @@ def replay_random_choice(prop, v):
 
 
 REPLAYS = {"random_choice": replay_random_choice}
+
+
+def _run_events(Q, n):
+    """drive the real event loop for n events, returning the clock values seen"""
+    times = []
+    nxt = Q.find_next_active_node()
+    Q.current_time = nxt.next_event_date
+    for _ in range(n):
+        nxt = Q.event_and_return_nextnode(nxt)
+        Q.current_time = nxt.next_event_date
+        times.append(Q.current_time)
+    return times
+
+
+def replay_end_service_without_server(prop, v):
+    """whole-run witness: a slotted node with an arrival at exactly t = 0.0"""
+    ciw = _ciw()
+    N = ciw.create_network(
+        arrival_distributions=[ciw.dists.Sequential([0.0, 1000.0])],
+        service_distributions=[ciw.dists.Deterministic(1.0)],
+        number_of_servers=[ciw.Slotted(slots=[2.0, 4.0], slot_sizes=[1, 1])])
+    Q = ciw.Simulation(N)
+    times = _run_events(Q, 4)
+    bad = [t for t in times if isinstance(t, bool)]
+    recs = Q.get_all_records()
+    odd = [r for r in recs if r.record_type == "service" and r.service_start_date is False]
+    if bad or odd:
+        return dict(confirmed=True, kind="whole-run",
+                    transcript=f"Slotted(slots=[2,4], sizes=[1,1]) node, Sequential([0.0, 1000]) arrivals, Deterministic(1) service: "
+                               f"clock values after the first events = {times}; a waiting customer (service_end_date False) was scheduled "
+                               f"to 'finish service' at date False; service records with service_start_date False: {len(odd)}",
+                    input=dict(network="1 slotted node", arrivals=[0.0, 1000.0]))
+    return dict(confirmed=False, kind="whole-run", transcript=f"clock values {times}: nothing wrong natively")
+
+
+REPLAYS["Node.update_next_end_service_without_server"] = replay_end_service_without_server
